@@ -51,6 +51,18 @@ CLAIMS = {
         note="salsa memoisation/invalidation is trusted (exercised, not modelled). Model: Host.lean vs analysis.rs/file_system.rs/db.rs.",
         tech="Lean 4 proof (lock-step relational invariant over the collect_sources worklist) + history correspondence on a real AnalysisHost",
         ref="DESIGN.md §7 C07"),
+    "C08": dict(
+        text="Lean theorems on the synchronisation model (main loop vs any number of snapshot tasks over the vfs RwLock and salsa's "
+             "write-waits-for-snapshots rule) for EVERY job list and EVERY schedule: no_deadlock (every reachable state is final or "
+             "has an enabled step), every_step_progresses (a measure decreases with each step, so every schedule is finite and ends "
+             "with all notifications processed and all requests answered), original_deadlocks (the pre-fix lock order has a "
+             "reachable deadlock, explicit witness). Every maximal schedule of the model for small job lists (each request kind) is "
+             "replayed on the real server with its threads paused at the hook's schedule points; blocked steps are probed; "
+             "uncontrolled bursts are run.",
+        note="Model granularity = hook schedule points; replay validates enabled steps and the per-request lock scripts (number of "
+             "vfs reads); OS scheduler fairness, tokio blocking pool and salsa internals are assumed.",
+        tech="Lean 4 proof (invariant + ranking function over a parametric transition system) + schedule replay on the real server",
+        ref="DESIGN.md §7 C08"),
     "C10": dict(
         text="Lean theorems for all texts: roundtrip (every char-boundary offset converts to a position and back), "
              "boundary_has_position (totality), line_contains, column_is_utf16, only LF/CR/CRLF break lines, clamp, "
